@@ -82,7 +82,10 @@ def module_attr_tag(shape: Shape, hist, i) -> str:
         return ""
     e = last_edit(hist, i)
     if e is None or e["op"] != "edit":
-        return "ref-via-module-attr|" if any(shape.dpath[f] for f in R) or e is not None else ""
+        # a kept site (data function or keep call) below the untracked reference is refused at run
+        # time ("this call was not found when analyzing the current evaluation"), also on a first evaluation
+        kept_below = any(shape.dpath[f] for f in R) or any(s["k"] == "keep" for f in R for s in shape.stmts[f])
+        return "ref-via-module-attr|" if kept_below or e is not None else ""
     if e["kind"] in ("body", "cos", "default") and e["what"] in R:
         return "ref-via-module-attr|"
     if e["kind"] == "var" and any(e["what"] in shape.reads[f] for f in R):
